@@ -106,6 +106,16 @@ CHECKS = {
         "technique": SIM + "per-query expected unicast / immediate-multicast sets from ModelRegistry + per-host ModelCache",
         "design_ref": "DESIGN.md §5 C11",
     },
+    "C12": {
+        "text": "Seeded search over arrival schedules of 1..6 queries on the boundary grid (0/20/120/500/1000/1120 ms +-1) and "
+                "truncated packet trains (1..4 packets, several sources, continuation before/at/after the hold timer), with "
+                "the library's jitter draws seeded or forced to min/max; every multicast answer on the trace must lie in "
+                "the window of a justifying delivered query (immediate, 20..500 ms, or >= 1 s after the last sighting and "
+                "<= 1.2 s after the query) and every expected answer must appear inside its window; ambiguous timer/packet "
+                "ties are judged under both assemblies.",
+        "technique": SIM + "interval oracle on send times against per-host ModelCache sightings, jitter corner forcing",
+        "design_ref": "DESIGN.md §5 C12",
+    },
     "C05": {
         "text": "Seeded search over response-datagram histories (repeats, refreshes, goodbyes, cache-flush, re-cased names) "
                 "and clock steps around the 1 s flush window, TTL expiry and the 10 s purge, driven through the real "
